@@ -3,7 +3,7 @@
 usage: bin/seedsweep.py [ID-prefix ...]"""
 import json, os, re, shutil, subprocess, sys, tempfile, glob
 ROOT = "/verif"
-res_path = os.path.join(ROOT, "seeded", "results.json")
+res_path = os.environ.get("SEED_RESULTS") or os.path.join(ROOT, "seeded", "results.json")      # SEED_RESULTS: partial file of a parallel sweep
 results = json.load(open(res_path)) if os.path.exists(res_path) else {}
 sel = sys.argv[1:]
 for d in sorted(glob.glob(os.path.join(ROOT, "seeded", "C*-*"))):
